@@ -70,8 +70,12 @@ def generate(rng, tier, index):
         if rng.chance(60):
             cross.append({"from": c, "lifecycle": rng.below(len(clients[c]["lifecycles"])), "to": rng.range(c + 1, nclients - 1), "flag": len(cross),
                           "after": rng.below(3)})
-    return {"prop": PROP, "clients": clients, "preempt": rng.choice([2, 5, 10, 25, 40, 60]), "sched_seed": rng.next() >> 1,
+    plan = {"prop": PROP, "clients": clients, "preempt": rng.choice([2, 5, 10, 25, 40, 60]), "sched_seed": rng.next() >> 1,
             "heap_pad": rng.choice([0, 4096, 120000]), "cross": cross}
+    # first use in a process: one plan in four runs its threads in a newly started process, so that whatever the library sets up on
+    # first use (tables, caches, function-local statics) is set up while the other threads are already running
+    plan["fresh_process"] = rng.chance(25)
+    return plan
 
 
 def compile_client(prog, ci, plan):
@@ -197,6 +201,10 @@ def check_plan(ctx, plan):
     rep = Report()
     compiled = [compile_client(p, ci, plan) for ci, p in enumerate(plan["clients"])]
     clients = [c[0] for c in compiled]
+    if plan.get("fresh_process"):
+        if "tsan" in ctx.ex:
+            ctx.ex.pop("tsan").stop()
+        rep.count("threads_in_fresh_process")
     exA = ctx.executor("tsan")
     res = ctx.execute("tsan", clients, preempt=plan["preempt"], max_steps=4000000, seed=plan["sched_seed"], timeout=120)
     if crash_violation(rep, res, "C06 concurrent run"):
